@@ -266,6 +266,13 @@ func (tb *TB) Bin(op Op, a, b *Node) *Node {
 		if b.IsConst() && w <= 64 {
 			return tb.Bin(OAdd, a, tb.Const(w, -b.val))
 		}
+		// (base + d1 + ... + dk) - (base + d1 + ... + dj): cancel common addends
+		// (sound mod 2^w); keeps differences of clock readings small sums
+		if w <= 64 && (a.op == OAdd || b.op == OAdd) {
+			if r := tb.cancelSub(a, b, w); r != nil {
+				return r
+			}
+		}
 	case OMul:
 		if a.IsConst() && !b.IsConst() {
 			return tb.Bin(OMul, b, a)
@@ -1127,4 +1134,76 @@ func (tb *TB) foldBin(op Op, w int, x, y uint64) *uint64 {
 	}
 	r &= mask(w)
 	return &r
+}
+
+// addends flattens a tree of OAdd nodes into its non-constant addends and the
+// sum of its constants.
+func addends(n *Node, out *[]*Node, c *uint64) {
+	if n.op == OAdd {
+		addends(n.args[0], out, c)
+		addends(n.args[1], out, c)
+		return
+	}
+	if n.IsConst() {
+		*c += n.val
+		return
+	}
+	*out = append(*out, n)
+}
+
+func (tb *TB) cancelSub(a, b *Node, w int) *Node {
+	var as, bs []*Node
+	var ca, cb uint64
+	addends(a, &as, &ca)
+	addends(b, &bs, &cb)
+	if len(as)+len(bs) > 20000 {
+		return nil
+	}
+	cancelled := false
+	pos := make(map[*Node][]int, len(as))
+	for j, x := range as {
+		pos[x] = append(pos[x], j)
+	}
+	for i, y := range bs {
+		if js := pos[y]; len(js) > 0 {
+			as[js[len(js)-1]], bs[i] = nil, nil
+			pos[y] = js[:len(js)-1]
+			cancelled = true
+		}
+	}
+	if !cancelled {
+		return nil
+	}
+	sum := func(xs []*Node, c uint64) *Node {
+		var acc *Node
+		for _, x := range xs {
+			if x == nil {
+				continue
+			}
+			if acc == nil {
+				acc = x
+			} else {
+				acc = tb.mk(Node{op: OAdd, w: w, args: []*Node{acc, x}})
+			}
+		}
+		if acc == nil {
+			return tb.Const(w, c)
+		}
+		if c&mask(w) != 0 {
+			acc = tb.mk(Node{op: OAdd, w: w, args: []*Node{acc, tb.Const(w, c)}})
+		}
+		return acc
+	}
+	pa := sum(as, ca-cb)
+	anyB := false
+	for _, x := range bs {
+		if x != nil {
+			anyB = true
+		}
+	}
+	if !anyB {
+		return pa
+	}
+	pb := sum(bs, 0)
+	return tb.mk(Node{op: OSub, w: w, args: []*Node{pa, pb}})
 }
